@@ -803,16 +803,12 @@ class Expander:
         # (no store to an attribute of that name, no call that is handed / invoked on the object the chain starts from)
         stored_attrs = {n.attr for x in body for n in ast.walk(x) if isinstance(n, ast.Attribute) and isinstance(n.ctx, (ast.Store, ast.Del))}
         stored_attrs |= {n.target.attr for x in body for n in ast.walk(x) if isinstance(n, ast.AugAssign) and isinstance(n.target, ast.Attribute)}
-        roots_of_param = {}
+        arg_of_param = {}
         for p_, v_ in binding.items():
-            if isinstance(v_, ast.AST):
-                d_ = _dotted(v_)
-                if d_:
-                    roots_of_param.setdefault(d_.split(".")[0], set()).add(p_)
-        if self_expr is not None:
-            d_ = _dotted(self_expr)
-            if d_:
-                roots_of_param.setdefault(d_.split(".")[0], set()).add("self")
+            if isinstance(v_, ast.AST) and _dotted(v_):
+                arg_of_param[p_] = _dotted(v_)
+        if self_expr is not None and _dotted(self_expr):
+            arg_of_param["self"] = _dotted(self_expr)
 
         def _stable(x_):
             if not isinstance(x_, ast.Attribute):
@@ -821,7 +817,11 @@ class Expander:
             parts = d_.split(".")
             if set(parts[1:]) & stored_attrs:
                 return False
-            holders = roots_of_param.get(parts[0], set())
+            # parameters through which the callee holds an object the chain passes through (a proper prefix of the chain): a call that
+            # is invoked on / handed such an object may rebind the attribute; calls on the chain's own value only change that value
+            holders = {p_ for p_, a_ in arg_of_param.items() if d_.startswith(a_ + ".")}
+            if not holders:
+                return True
             for st_ in body:
                 for c_ in ast.walk(st_):
                     if isinstance(c_, ast.Call):
@@ -830,8 +830,9 @@ class Expander:
                         for e_ in involved:
                             de_ = _dotted(e_)
                             if de_ and de_.split(".")[0] in holders:
-                                # reading another field of the object as an argument is harmless; the object itself (or a prefix of the chain) is not
-                                if de_.split(".")[0] == de_ or d_.startswith(de_ + "."):
+                                # the held object itself, or an object on the way to the attribute
+                                full = arg_of_param[de_.split(".")[0]] + de_[len(de_.split(".")[0]):]
+                                if d_.startswith(full + "."):
                                     return False
             return True
         for p, v in binding.items():
